@@ -686,3 +686,67 @@ def rf88(run):
     if n < 3:
         raise F.AnalysisBroken('compression layer finish calls not found in mir.c')
     return n
+
+
+# ---------------------------------------------------------------------------------------------
+# RF13s: the literal run of the encoder always ends with the byte just handed to it
+# ---------------------------------------------------------------------------------------------
+
+def rf13s(run):
+    from lib import printexec as PE
+    rule = 'RF13s'
+    run.rule(rule, 'mir-reduce.h encoder: _reduce_output_byte (data, pos), executed abstractly from the states "no current literal run", "run '
+                   'of 5 bytes" and "run of maximal length" (which it flushes), leaves a current run whose last byte is buf[pos] - whether '
+                   'the run is kept as a copy (curr_symb[len-1] == buf[pos]) or as a range of the input (start + len - 1 == pos) - and whose '
+                   'length is 1 after a flush and the old length + 1 otherwise; the flushed run is the old one')
+    tu = run.tu('mir')
+    f = tu.func('_reduce_output_byte')
+    run.functions_analysed.add(('mir', f.name))
+    maxlen = None
+    for x in f.walk():
+        if x['k'] == 'BinaryOperator' and x['op'] in ('>', '>=', '==') and 'curr_symb_len' in F.src(x['c'][0]):
+            maxlen = F.const_value(F.strip(x['c'][1]))
+    if not maxlen:
+        raise F.AnalysisBroken('_reduce_output_byte: maximal run length not found')
+    fields = {x['n'] for g in (f, tu.func('_reduce_symb_flush')) for x in g.walk() if x['k'] == 'MemberExpr' and x['n'].startswith('curr_symb')}
+    ranged = 'curr_symb_start' in fields
+    n = 0
+    for old_len in (0, 5, maxlen):
+        P = 3000
+        S = P - old_len
+        env = {'pos': P, 'encode_data->curr_symb_len': old_len, 'data->buf[%d]' % P: 77, 'data->u.encode.curr_symb_len': old_len}
+        if ranged:
+            env['encode_data->curr_symb_start'] = S
+            env['data->u.encode.curr_symb_start'] = S
+        flushed = []
+
+        def flush(args, env_, ex):
+            flushed.append((env_.get('encode_data->curr_symb_start'), env_.get('encode_data->curr_symb_len')))
+            env_['encode_data->curr_symb_len'] = 0
+            return 1
+        ex = PE.PrintExec(tu, {}, {'_reduce_symb_flush': flush}, {})
+        try:
+            ex.run(f.body, env)
+        except F.AnalysisBroken as exn:
+            raise F.AnalysisBroken('_reduce_output_byte from a run of %d bytes: %s' % (old_len, exn))
+        new_len = env.get('encode_data->curr_symb_len')
+        want_len = 1 if old_len == maxlen else old_len + 1
+        why = None
+        if new_len != want_len:
+            why = 'the run length becomes %s, expected %d' % (new_len, want_len)
+        elif old_len == maxlen and (len(flushed) != 1 or flushed[0][1] != maxlen or (ranged and flushed[0][0] != S)):
+            why = 'the flushed run is %s, expected the old run (start %d, length %d)' % (flushed, S, maxlen)
+        elif ranged:
+            st = env.get('encode_data->curr_symb_start')
+            if not isinstance(st, int) or st + new_len - 1 != P:
+                why = 'the run is [%s, +%s): its last byte is not buf[pos=%d]' % (st, new_len, P)
+        else:
+            if env.get('encode_data->curr_symb[%d]' % (new_len - 1)) != 77:
+                why = 'curr_symb[%d] does not receive buf[pos]' % (new_len - 1)
+        n += 1
+        run.ob(rule, (old_len,), why is None, {'run length before': old_len, 'after': new_len, 'flushed': flushed, 'representation': 'range of the input' if ranged else 'copy'})
+        if why:
+            run.violation(rule, f, 'literal run after a byte (old length %d)' % old_len, 'after _reduce_output_byte (data, %d) from a run of %d bytes %s: '
+                          'the encoder emits other bytes than its input and the decoder reproduces them (lengths and the check hash of the '
+                          'input disagree: a complete unmodified stream is rejected, losslessness is lost)' % (P, old_len, why), line=f.line)
+    return n
